@@ -13,12 +13,21 @@ func sanitizeSelectionSet(ctx *PlanningContext, selectionSet ast.SelectionSet, i
 		switch s := s.(type) {
 		case *ast.Field:
 			if len(s.SelectionSet) != 0 {
+				// read before the fragments are rewritten and get helper fields of their own
+				selectedHelpers := clientSelectedHelpers(ctx, s.SelectionSet, nil)
+
 				childSelectionSet, sf := sanitizeSelectionSet(ctx, s.SelectionSet, append(insertionPoint, s.Alias))
 				scrubFields.Merge(sf)
 
 				var addedFields []string
 				childSelectionSet, addedFields = addScrubFieldsToSelectionSet(ctx, childSelectionSet, s.Definition.Type.Name())
 				scrubFields = setMissingScrubFieldsForFieldSelectionSet(ctx, insertionPoint, s, childSelectionSet, scrubFields, addedFields)
+
+				// helper fields which client selected by himself through a fragment should not be scrubbed
+				// for the objects this fragment applies to, even if another fragment added them too
+				for _, h := range selectedHelpers {
+					scrubFields.UnsetForType(append(append([]string{}, insertionPoint...), s.Alias), h.typename, h.fieldname)
+				}
 
 				s.SelectionSet = childSelectionSet
 			}
@@ -75,6 +84,53 @@ func sanitizeSelectionSet(ctx *PlanningContext, selectionSet ast.SelectionSet, i
 	}
 
 	return result, scrubFields
+}
+
+type selectedHelper struct {
+	typename  string
+	fieldname string
+}
+
+// clientSelectedHelpers lists helper fields which client selected by himself inside the fragments of the selection set
+// (without alias or directives), each with the types of the objects it is selected for. nil types stands for every type
+func clientSelectedHelpers(ctx *PlanningContext, selectionSet ast.SelectionSet, types []string) []selectedHelper {
+	var res []selectedHelper
+	for _, s := range selectionSet {
+		switch s := s.(type) {
+		case *ast.Field:
+			// selected on the level itself is already handled by sanitizeSelectionSet
+			if s.Alias != s.Name || len(s.Directives) != 0 || (s.Name != common.IDFieldName && s.Name != common.TypenameFieldName) {
+				continue
+			}
+			for _, t := range types {
+				res = append(res, selectedHelper{typename: t, fieldname: s.Name})
+			}
+		case *ast.InlineFragment:
+			if len(s.Directives) == 0 {
+				res = append(res, clientSelectedHelpers(ctx, s.SelectionSet, narrowTypes(ctx, types, s.TypeCondition))...)
+			}
+		case *ast.FragmentSpread:
+			if len(s.Directives) == 0 && s.Definition != nil {
+				res = append(res, clientSelectedHelpers(ctx, s.Definition.SelectionSet, narrowTypes(ctx, types, s.Definition.TypeCondition))...)
+			}
+		}
+	}
+	return res
+}
+
+// narrowTypes returns those of types which objects matching type condition can have
+func narrowTypes(ctx *PlanningContext, types []string, typeCondition string) []string {
+	if typeCondition == "" {
+		return types
+	}
+	matching := []string{typeCondition}
+	if t := ctx.Schema.Types[typeCondition]; t != nil && (t.Kind == ast.Interface || t.Kind == ast.Union) {
+		matching = lo.Map(ctx.Schema.PossibleTypes[t.Name], func(d *ast.Definition, _ int) string { return d.Name })
+	}
+	if types == nil {
+		return matching
+	}
+	return lo.Intersect(types, matching)
 }
 
 func sanitizeUnionInlineFragment(ctx *PlanningContext, selectionSet ast.SelectionSet, selection *ast.InlineFragment) ast.SelectionSet {
